@@ -253,6 +253,12 @@ def mkcmp(op, l, r):
     """`m is None` / `m is not None` on a regex test result are `not m` / `m`."""
     if op in ("Is", "IsNot", "Eq", "NotEq") and r == ("const", None) and is_regex_test(l):
         return mknot(l) if op in ("Is", "Eq") else l
+    # a function / table / constructed value is not None; None is None
+    if op in ("Is", "IsNot") and r == ("const", None):
+        if l[0] in ("funcref", "partial", "closure", "tuple", "list", "comp", "lambda") or (l[0] == "const" and l[1] is not None):
+            return ("const", op == "IsNot")
+        if l == ("const", None):
+            return ("const", op == "Is")
     # comparisons are kept in their positive spelling: a != b is not (a == b), x is None is not (x is not None)
     if op in ("NotEq", "NotIn"):
         return ("not", ("cmp", op[3:], l, r))
@@ -709,7 +715,17 @@ class _State(object):
             return ("bool", "and" if isinstance(n.op, ast.And) else "or", tuple(self.expr(v) for v in n.values))
         if isinstance(n, ast.Compare):
             if len(n.ops) == 1:
-                return mkcmp(type(n.ops[0]).__name__, self.expr(n.left), self.expr(n.comparators[0]))
+                opn, lt, rt = type(n.ops[0]).__name__, self.expr(n.left), self.expr(n.comparators[0])
+                if opn in ("Is", "IsNot") and rt == ("const", None) and lt[0] == "global" and isinstance(lt[1], str) and lt[1].startswith(self.repo.package + "."):
+                    # a module-level value of the package that is a function / partial / pattern / table is not None
+                    mname, _, gname = lt[1].rpartition(".")
+                    try:
+                        gv = self.repo.const(self.repo.mod(mname), gname) if self.repo.has_mod(mname) else None
+                    except (Unknown, AnalysisError):
+                        gv = None
+                    if gv is not None:
+                        return ("const", opn == "IsNot")
+                return mkcmp(opn, lt, rt)
             parts = []
             left = n.left
             for op, right in zip(n.ops, n.comparators):
